@@ -484,7 +484,7 @@ func propC08(r *kernel.Run) {
 	}
 	// (b) histories from empty storage
 	r.Count("cfg.mode.history", 1)
-	n := tp.Range(2, 12)
+	n := tp.Range(2, r.Deep(12, 40))
 	span := cfg.L + cfg.na - cfg.nb
 	if span <= 0 || span > 20*365*24*time.Hour {
 		span = 20 * 365 * 24 * time.Hour // century-scale lifetimes: the run does not move the clock that far
